@@ -121,6 +121,7 @@ struct InCfg
 	uint32_t encChunk = 256;
 	bool skipFastSeek = false;
 	uint32_t prefix = 0;              // the document starts at this offset of the stream (a header or another document precedes it); the stream is positioned there
+	uint8_t excMask = 0;              // extra bits the caller enabled with istream::exceptions(): 2 = failbit, 4 = eofbit (badbit comes with throwMode)
 	bool readOnlyMem = false;         // memory entry through a std::string_view of a read-only mapping followed by an inaccessible page
 
 	std::string str() const
@@ -133,6 +134,7 @@ struct InCfg
 			s += "] binChunk=" + std::to_string(binChunk) + " encChunk=" + std::to_string(encChunk);
 			if (skipFastSeek) s += " skipFastSeek";
 			if (prefix) s += " startsAt=" + std::to_string(prefix);
+			if (excMask) s += std::string(" exceptions(") + ((excMask & 2) ? "failbit" : "") + ((excMask & 4) ? "|eofbit" : "") + ")";
 			if (seekBeyondFails) s += " seekBeyondFails";
 		}
 		return s;
@@ -257,6 +259,67 @@ struct PaddedInput
 	}
 };
 
+inline std::ios::iostate ExceptionMask(const InCfg& c, bool throwMode)
+{
+	std::ios::iostate m = std::ios::goodbit;
+	if (throwMode) m |= std::ios::badbit;
+	if (c.excMask & 2) m |= std::ios::failbit;
+	if (c.excMask & 4) m |= std::ios::eofbit;
+	return m;
+}
+inline uint8_t DrawExceptionMask(Source& s, Lane l) { static const uint8_t masks[] = { 2, 4, 6, 6 }; return s.pick(l, masks); }
+
+// MessagePack as other encoders write it: non-negative integers in the signed formats (int8/16/32/64 = 0xD0..0xD3) wherever the
+// value allows, for keys and values alike - same length as the unsigned formats, so only the format byte changes.
+// Returns false (and leaves the bytes alone) if the document cannot be walked.
+inline bool MsgPackWalkForeign(std::string& b, size_t& pos, int depth, uint32_t& flipped)
+{
+	if (depth > 200 || pos >= b.size()) return false;
+	const unsigned char t = static_cast<unsigned char>(b[pos++]);
+	auto need = [&](size_t n) { return pos + n <= b.size(); };
+	auto be = [&](size_t n) { uint64_t v = 0; for (size_t i = 0; i < n; ++i) v = (v << 8) | static_cast<unsigned char>(b[pos + i]); return v; };
+	auto items = [&](uint64_t n) { for (uint64_t i = 0; i < n; ++i) if (!MsgPackWalkForeign(b, pos, depth + 1, flipped)) return false; return true; };
+	if (t <= 0x7f || t >= 0xe0 || t == 0xc0 || t == 0xc2 || t == 0xc3) return true;
+	if (t >= 0xa0 && t <= 0xbf) { const size_t n = t & 0x1f; if (!need(n)) return false; pos += n; return true; }
+	if (t >= 0x90 && t <= 0x9f) return items(t & 0x0f);
+	if (t >= 0x80 && t <= 0x8f) return items(2ull * (t & 0x0f));
+	switch (t)
+	{
+	case 0xcc: case 0xcd: case 0xce: case 0xcf:
+	{
+		const size_t n = size_t(1) << (t - 0xcc);
+		if (!need(n)) return false;
+		if ((static_cast<unsigned char>(b[pos]) & 0x80) == 0) { b[pos - 1] = static_cast<char>(0xd0 + (t - 0xcc)); ++flipped; }
+		pos += n;
+		return true;
+	}
+	case 0xd0: case 0xd1: case 0xd2: case 0xd3: { const size_t n = size_t(1) << (t - 0xd0); if (!need(n)) return false; pos += n; return true; }
+	case 0xca: if (!need(4)) return false; pos += 4; return true;
+	case 0xcb: if (!need(8)) return false; pos += 8; return true;
+	case 0xc4: case 0xd9: { if (!need(1)) return false; const uint64_t n = be(1); pos += 1; if (!need(n)) return false; pos += n; return true; }
+	case 0xc5: case 0xda: { if (!need(2)) return false; const uint64_t n = be(2); pos += 2; if (!need(n)) return false; pos += n; return true; }
+	case 0xc6: case 0xdb: { if (!need(4)) return false; const uint64_t n = be(4); pos += 4; if (!need(n)) return false; pos += n; return true; }
+	case 0xdc: { if (!need(2)) return false; const uint64_t n = be(2); pos += 2; return items(n); }
+	case 0xdd: { if (!need(4)) return false; const uint64_t n = be(4); pos += 4; return items(n); }
+	case 0xde: { if (!need(2)) return false; const uint64_t n = be(2); pos += 2; return items(2 * n); }
+	case 0xdf: { if (!need(4)) return false; const uint64_t n = be(4); pos += 4; return items(2 * n); }
+	case 0xd4: case 0xd5: case 0xd6: case 0xd7: case 0xd8: { const size_t n = 1 + (size_t(1) << (t - 0xd4)); if (!need(n)) return false; pos += n; return true; }
+	case 0xc7: { if (!need(1)) return false; const uint64_t n = be(1); pos += 1; if (!need(n + 1)) return false; pos += n + 1; return true; }
+	case 0xc8: { if (!need(2)) return false; const uint64_t n = be(2); pos += 2; if (!need(n + 1)) return false; pos += n + 1; return true; }
+	case 0xc9: { if (!need(4)) return false; const uint64_t n = be(4); pos += 4; if (!need(n + 1)) return false; pos += n + 1; return true; }
+	default: return false;
+	}
+}
+inline uint32_t MsgPackAsForeignEncoder(std::string& bytes)
+{
+	std::string copy = bytes;
+	size_t pos = 0;
+	uint32_t flipped = 0;
+	if (!MsgPackWalkForeign(copy, pos, 0, flipped) || pos != copy.size()) return 0;
+	bytes.swap(copy);
+	return flipped;
+}
+
 // Loads `skel` from `bytes` through the configured entry. `eofAt`/`failAt` are fault positions (SIZE_MAX = none).
 inline CallResult LoadDynWith(ArchiveOps& ops, DynNode& skel, const std::string& bytes, const SerializationOptions& o, const InCfg& c,
 	sim::InFaults faults = {}, bool throwMode = false, LoadInfo* info = nullptr)
@@ -292,8 +355,7 @@ inline CallResult LoadDynWith(ArchiveOps& ops, DynNode& skel, const std::string&
 		sb.SetSeekBeyondFails(c.seekBeyondFails);
 		std::istream is(&sb);
 		try { PaddedInput::Position(is, c); } catch (...) {}
-		if (throwMode) is.exceptions(std::ios::badbit);
-		r = Guarded([&] { FailWindow fw; ops.LoadDyn(skel, o, IoIn{ nullptr, &is }); });
+		r = Guarded([&] { is.exceptions(ExceptionMask(c, throwMode)); FailWindow fw; ops.LoadDyn(skel, o, IoIn{ nullptr, &is }); });
 		if (info)
 		{
 			info->faultFired = sb.FaultFired();
@@ -481,6 +543,19 @@ inline std::u32string GenText(Source& s, Lane l, TextProfile p, uint32_t maxLen)
 	{
 		if (plain && !s.chance(l, 1, 8)) t.push_back(U'a' + (i % 26));
 		else t.push_back(GenCodePoint(s, l, p));
+	}
+	// 1 text in 6 (when there is room): the multi-character sequences that mean something to one of the formats
+	if (maxLen >= 16 && p != TextProfile::Ascii && s.chance(l, 1, 6))
+	{
+		static const char* const markup[] = { "]]>", "<![CDATA[", "&amp;", "&lt;", "&#65;", "&", "<", "<a>", "</a>", "<!--", "-->", "<?x?>", "\"\"", "\",\"", "\\u0041", "\\", "\\\"", "\n", "\t", ",", ";", "|", "//", "/*", "${x}", "%s" };
+		const uint32_t k = 1 + s.draw(l, 3);
+		for (uint32_t i = 0; i < k; ++i)
+		{
+			const char* tok = s.pick(l, markup);
+			std::u32string wide;
+			for (const char* q = tok; *q; ++q) wide.push_back(static_cast<char32_t>(static_cast<unsigned char>(*q)));
+			t.insert(s.draw(l, static_cast<uint32_t>(t.size() + 1)), wide);
+		}
 	}
 	return t;
 }
